@@ -164,11 +164,11 @@ Lemma string_tokens_escape s : forall rest, no_quote_start rest = true ->
   string_tokens (escape s ++ QUOTE :: rest) = Some (s, rest).
 Proof.
   induction s as [|c r IH]; intros rest H.
-  - cbn [escape app string_tokens]. rewrite N.eqb_refl. destruct rest as [|y r']; auto.
+  - cbn [escape List.app string_tokens]. rewrite N.eqb_refl. destruct rest as [|y r']; auto.
     cbn [no_quote_start] in H. apply negb_true_iff in H. rewrite H. reflexivity.
   - cbn [escape]. destruct (N.eqb_spec c QUOTE) as [->|N].
-    + cbn [app string_tokens]. rewrite !N.eqb_refl. rewrite (IH _ H). reflexivity.
-    + cbn [app string_tokens]. apply N.eqb_neq in N. rewrite N. rewrite (IH _ H). reflexivity.
+    + cbn [List.app string_tokens]. rewrite !N.eqb_refl. rewrite (IH _ H). reflexivity.
+    + cbn [List.app string_tokens]. apply N.eqb_neq in N. rewrite N. rewrite (IH _ H). reflexivity.
 Qed.
 
 Lemma quoted_field sep s rest : no_quote_start rest = true ->
@@ -188,9 +188,9 @@ Lemma take_token_app sep t : forall rest, forallb (tokc sep) t = true -> delim s
   take_token sep (t ++ rest) = (t, rest).
 Proof.
   induction t as [|c r IH]; intros rest F D.
-  - cbn [app]. destruct rest as [|c r]; auto. cbn [delim] in D. cbn [take_token]. rewrite D. reflexivity.
+  - cbn [List.app]. destruct rest as [|c r]; auto. cbn [delim] in D. cbn [take_token]. rewrite D. reflexivity.
   - cbn [forallb] in F. apply andb_true_iff in F as [A B]. unfold tokc in A. apply negb_true_iff in A.
-    cbn [app take_token]. rewrite A, (IH _ B D). reflexivity.
+    cbn [List.app take_token]. rewrite A, (IH _ B D). reflexivity.
 Qed.
 
 Lemma plain_tokc sep t : sep_ok sep = true -> forallb plain t = true -> forallb (tokc sep) t = true.
@@ -245,8 +245,8 @@ Lemma field_rt sep f rest : sep_ok sep = true -> field_ok f = true -> delim sep 
   parse_field sep (write_field [] f ++ rest) = Some (f, rest).
 Proof.
   intros S F D. destruct f as [|s|z|l]; cbn [write_field].
-  - cbn [app]. apply null_field; auto.
-  - cbn [app]. rewrite <- app_assoc. cbn [app]. rewrite (quoted_field _ _ _ (delim_no_quote _ _ S D)).
+  - cbn [List.app]. apply null_field; auto.
+  - cbn [List.app]. rewrite <- app_assoc. cbn [List.app]. rewrite (quoted_field _ _ _ (delim_no_quote _ _ S D)).
     destruct s; [discriminate F | reflexivity].
   - rewrite (token_field _ _ _ S (print_int_plain z) (print_int_nonnil z) D), typing_int. reflexivity.
   - cbn [field_ok] in F. destruct (float_lit_facts _ F) as [NN [P _]].
@@ -270,7 +270,7 @@ Proof.
     destruct rest as [|c r]; auto. cbn [row_end] in E.
     destruct (N.eqb_spec c sep) as [->|]; auto.
     destruct (sep_not_nl _ S) as [A B]. rewrite (N.eqb_sym sep CR), (N.eqb_sym sep LF), A, B in E. discriminate E.
-  - rewrite write_row_cons, <- app_assoc. cbn [app parse_fields].
+  - rewrite write_row_cons, <- app_assoc. cbn [List.app parse_fields].
     rewrite (field_rt sep f _ S Ff); [| cbn [delim]; rewrite N.eqb_refl; reflexivity].
     rewrite N.eqb_refl. rewrite IH; auto; [discriminate | cbn [length] in *; lia].
 Qed.
@@ -297,7 +297,7 @@ Qed.
 
 Lemma write_field_head f : field_ok f = true -> f = FNull \/ nonl (write_field [] f) = true.
 Proof.
-  destruct f as [|s|z|l]; intro F; auto; right; cbn [write_field].
+  destruct f as [|s|z|l]; intro F; [left; reflexivity | right | right | right]; cbn [write_field].
   - reflexivity.
   - apply plain_nonl; [apply print_int_plain | apply print_int_nonnil].
   - destruct (float_lit_facts _ F) as [NN [P _]]. apply plain_nonl; auto.
@@ -310,7 +310,7 @@ Proof.
   destruct r' as [|g r''].
   - cbn [write_row]. destruct (write_field_head _ Ff) as [->|H]; [discriminate NR | auto].
   - rewrite write_row_cons. destruct (write_field_head _ Ff) as [->|H].
-    + cbn [write_field app nonl]. destruct (sep_not_nl _ S) as [A B].
+    + cbn [write_field List.app nonl]. destruct (sep_not_nl _ S) as [A B].
       rewrite (N.eqb_sym sep CR), (N.eqb_sym sep LF), A, B. reflexivity.
     + apply nonl_app. auto.
 Qed.
@@ -355,18 +355,18 @@ Lemma et_alts_lsep lsep x : lsep_ok lsep = true -> nolf x = true -> exists l, et
 Proof.
   intros L X. destruct lsep as [|c [|d [|e r]]]; try discriminate L; cbn [lsep_ok] in L.
   - apply orb_true_iff in L as [L|L]; apply N.eqb_eq in L; subst c.
-    + unfold et_alts. cbn [app]. destruct x as [|y r]; eexists; cbn; reflexivity.
-    + unfold et_alts. cbn [app]. destruct x as [|y r]; [eexists; cbn; reflexivity|].
+    + unfold et_alts. cbn [List.app]. destruct x as [|y r]; eexists; cbn; reflexivity.
+    + unfold et_alts. cbn [List.app]. destruct x as [|y r]; [eexists; cbn; reflexivity|].
       cbn [nolf] in X. apply negb_true_iff in X. rewrite N.eqb_refl, X. eexists. cbn. reflexivity.
   - apply andb_true_iff in L as [A B]. apply N.eqb_eq in A, B. subst c d.
-    unfold et_alts. cbn [app]. rewrite !N.eqb_refl. eexists. cbn. reflexivity.
+    unfold et_alts. cbn [List.app]. rewrite !N.eqb_refl. eexists. cbn. reflexivity.
 Qed.
 
 Lemma et_alts_nonl x : nonl x = true -> et_alts x = [x].
 Proof.
   destruct x as [|c r]; [discriminate|]. cbn [nonl]. intro H. apply negb_true_iff in H.
   apply orb_false_iff in H as [A B]. unfold et_alts. rewrite A, B.
-  destruct r; cbn [andb app]; reflexivity.
+  destruct r; cbn [andb List.app]; reflexivity.
 Qed.
 
 Lemma et_first_lsep lsep x : lsep_ok lsep = true -> nolf x = true -> et_first (lsep ++ x) = x.
@@ -374,7 +374,7 @@ Proof. intros L X. unfold et_first. destruct (et_alts_lsep _ _ L X) as [l ->]. r
 
 Lemma lsep_row_end lsep x : lsep_ok lsep = true -> row_end (lsep ++ x) = true.
 Proof.
-  intro L. destruct lsep as [|c [|d [|e r]]]; try discriminate L; cbn [lsep_ok] in L; cbn [app row_end].
+  intro L. destruct lsep as [|c [|d [|e r]]]; try discriminate L; cbn [lsep_ok] in L; cbn [List.app row_end].
   - rewrite orb_comm. exact L.
   - apply andb_true_iff in L as [A _]. rewrite A. reflexivity.
 Qed.
@@ -397,7 +397,7 @@ Proof.
   destruct rs as [|r2 rs'].
   - cbn [write_rows parse_rows].
     rewrite <- (app_nil_r (write_row sep [] r)) at 2.
-    rewrite (fields_rt sep r S RN FF _ [] eq_refl); [| rewrite app_nil_r; apply write_row_length].
+    rewrite (fields_rt sep r S RN FF _ [] eq_refl); [| apply write_row_length].
     rewrite NR. change (et_first []) with (@nil N).
     destruct k as [|k']; [lia|]. cbn. reflexivity.
   - rewrite write_rows_cons. cbn [parse_rows].
@@ -433,8 +433,101 @@ Proof.
     rewrite NR. destruct (et_alts_lsep lsep _ L (nonl_nolf _ H)) as [l ->].
     cbn [flat_map]. rewrite (et_alts_nonl _ H). cbn [flat_map].
     rewrite (rows_of_write _ _ _ S L NN FR). reflexivity.
-  - destruct h; [|discriminate Fh]. cbn [app].
+  - destruct h; [|discriminate Fh]. cbn [List.app].
     rewrite (rows_of_write _ _ _ S L NN FR). reflexivity.
+Qed.
+
+(* every solution the parser finds on backtracking is the same frame *)
+Definition is_nl (c : N) : bool := (c =? CR) || (c =? LF).
+
+Lemma et_alts_strip s r : In r (et_alts s) -> exists p, s = p ++ r /\ forallb is_nl p = true.
+Proof.
+  unfold et_alts. intro H.
+  apply in_app_or in H as [H|H]; [|apply in_app_or in H as [H|H]; [|apply in_app_or in H as [H|H]]].
+  - destruct s as [|c [|d r']]; try (destruct H; fail).
+    destruct ((c =? CR) && (d =? LF)) eqn:E; [|destruct H]. destruct H as [<-|[]].
+    apply andb_true_iff in E as [A B]. apply N.eqb_eq in A, B. subst. exists [CR; LF]. split; reflexivity.
+  - destruct s as [|c r']; [destruct H|]. destruct (c =? LF) eqn:E; [|destruct H]. destruct H as [<-|[]].
+    apply N.eqb_eq in E. subst. exists [LF]. split; reflexivity.
+  - destruct s as [|c r']; [destruct H|]. destruct (c =? CR) eqn:E; [|destruct H]. destruct H as [<-|[]].
+    apply N.eqb_eq in E. subst. exists [CR]. split; reflexivity.
+  - destruct H as [<-|[]]. exists []. split; reflexivity.
+Qed.
+
+Lemma et_first_in s : In (et_first s) (et_alts s).
+Proof.
+  unfold et_first, et_alts. rewrite !app_assoc.
+  match goal with |- In (hd s (?l ++ [s])) _ => destruct l; cbn [List.app hd In]; auto end.
+Qed.
+
+Lemma nonl_head x : nonl x = true -> exists c r, x = c :: r /\ is_nl c = false.
+Proof.
+  destruct x as [|c r]; [discriminate|]. cbn [nonl]. intro H. apply negb_true_iff in H. exists c, r. auto.
+Qed.
+
+Lemma nl_split P : forall L r2 RW, forallb is_nl P = true -> forallb is_nl L = true -> nonl RW = true ->
+  P ++ r2 = L ++ RW -> r2 = RW \/ exists q, q <> [] /\ forallb is_nl q = true /\ r2 = q ++ RW.
+Proof.
+  induction P as [|a P' IH]; intros L r2 RW HP HL HR E.
+  - cbn [List.app] in E. subst r2. destruct L as [|c L']; [left; reflexivity|].
+    right. exists (c :: L'). repeat split; auto. discriminate.
+  - cbn [forallb] in HP. apply andb_true_iff in HP as [Ha HP'].
+    destruct L as [|c L'].
+    + cbn [List.app] in E. destruct (nonl_head _ HR) as [y [r [-> Hy]]]. inversion E; subst. congruence.
+    + cbn [forallb] in HL. apply andb_true_iff in HL as [_ HL']. cbn [List.app] in E. inversion E; subst.
+      apply (IH L'); auto.
+Qed.
+
+Lemma rows_of_nl_prefix sep q RW : sep_ok sep = true -> q <> [] -> forallb is_nl q = true -> nonl RW = true ->
+  rows_of sep (q ++ RW) = [].
+Proof.
+  intros S NN Q R. destruct q as [|c q']; [congruence|]. cbn [forallb] in Q. apply andb_true_iff in Q as [Qc Q'].
+  change ((c :: q') ++ RW) with (c :: q' ++ RW).
+  assert (D : delim sep (c :: q' ++ RW) = true).
+  { cbn [delim]. unfold is_nl in Qc. apply orb_true_iff in Qc as [H|H]; rewrite H; rewrite ?orb_true_r; reflexivity. }
+  assert (NS : (c =? sep) = false).
+  { destruct (N.eqb_spec c sep) as [->|]; auto. destruct (sep_not_nl _ S) as [A B].
+    unfold is_nl in Qc. rewrite (N.eqb_sym sep CR), (N.eqb_sym sep LF), A, B in Qc. discriminate Qc. }
+  assert (NE : et_first (c :: q' ++ RW) <> []).
+  { intro E. destruct (et_alts_strip _ _ (et_first_in (c :: q' ++ RW))) as [p [Hp Fp]].
+    rewrite E, app_nil_r in Hp. rewrite <- Hp in Fp. cbn [forallb] in Fp. apply andb_true_iff in Fp as [_ Fp].
+    rewrite forallb_app in Fp. apply andb_true_iff in Fp as [_ Fp].
+    destruct (nonl_head _ R) as [y [r [-> Hy]]]. cbn [forallb] in Fp. rewrite Hy in Fp. discriminate Fp. }
+  unfold rows_of. cbn [parse_rows parse_fields]. rewrite (null_field _ _ S D), NS. cbn [is_null_row].
+  destruct (et_first (c :: q' ++ RW)); [congruence | reflexivity].
+Qed.
+
+Lemma lsep_all_nl lsep : lsep_ok lsep = true -> forallb is_nl lsep = true.
+Proof.
+  intro L. destruct lsep as [|c [|d [|e r]]]; try discriminate L; cbn [lsep_ok] in L; cbn [forallb]; unfold is_nl.
+  - rewrite orb_comm, L. reflexivity.
+  - apply andb_true_iff in L as [A B]. rewrite A, B. rewrite orb_true_r. reflexivity.
+Qed.
+
+Lemma table_rt_all hdr sep lsep fr : sep_ok sep = true -> lsep_ok lsep = true -> frame_ok hdr fr = true ->
+  forall x, In x (parse_all hdr sep (write hdr sep lsep [] fr)) -> x = fr.
+Proof.
+  intros S L F x. destruct fr as [h rows]. unfold frame_ok in F. cbn [fst snd] in F.
+  apply andb_true_iff in F as [Fh Fr].
+  assert (NN : rows <> []) by (destruct rows; [discriminate | discriminate]).
+  assert (FR : forallb row_ok rows = true) by (destruct rows; [discriminate | exact Fr]).
+  unfold parse_all, write. cbn [fst snd]. destruct hdr.
+  - destruct (row_ok_not_null _ Fh) as [NR [HN FF]].
+    pose proof (write_rows_head sep lsep rows S NN FR) as H.
+    rewrite <- !app_assoc.
+    rewrite (fields_rt sep h S HN FF _ _ (lsep_row_end lsep _ L)).
+    2:{ rewrite app_length. pose proof (write_row_length sep [] h). lia. }
+    rewrite NR. intro I.
+    apply in_flat_map in I as [r1 [I1 I]]. apply in_flat_map in I as [r2 [I2 I]].
+    apply in_map_iff in I as [rs [<- I]].
+    destruct (et_alts_strip _ _ I1) as [p1 [E1 P1]]. destruct (et_alts_strip _ _ I2) as [p2 [E2 P2]].
+    assert (E : (p1 ++ p2) ++ r2 = lsep ++ write_rows sep lsep [] rows) by (rewrite <- app_assoc, <- E2, <- E1; reflexivity).
+    assert (P : forallb is_nl (p1 ++ p2) = true) by (rewrite forallb_app, P1, P2; reflexivity).
+    destruct (nl_split _ _ _ _ P (lsep_all_nl _ L) H E) as [->|[q [Q1 [Q2 ->]]]].
+    + rewrite (rows_of_write _ _ _ S L NN FR) in I. destruct I as [<-|[]]. reflexivity.
+    + rewrite (rows_of_nl_prefix _ _ _ S Q1 Q2 H) in I. destruct I.
+  - destruct h; [|discriminate Fh]. cbn [List.app].
+    rewrite (rows_of_write _ _ _ S L NN FR). intros [<-|[]]. reflexivity.
 Qed.
 
 (* a non-empty null value is re-read as the typing of its text *)
